@@ -92,7 +92,8 @@ Inductive eds_shape (sn : eds_snapshot) (pl : eds_plan) : Prop :=
     last_such (rs_up_to_date e) rss = Some uptodate ->
     select_current (e_annots e) (st_canary (e_strategy e)) active uptodate (es_now sn) = (current, rq) ->
     let dels := rs_to_delete sn rss current uptodate in
-    (ep_writes pl = map WDeleteRs dels \/
+    ((existsb (fun d => memN d (es_fail_rs_delete sn)) dels = true /\ ep_writes pl = map WDeleteRs dels) \/
+     existsb (fun d => memN d (es_fail_rs_delete sn)) dels = false /\
      exists upl,
        update_instance sn e current uptodate
          (fold_left (fun acc r => acc + rs_current (r_status r)) rss 0)
@@ -111,7 +112,7 @@ Proof.
   destruct (last_such (rs_up_to_date e) (rs_of_eds e (es_rss sn))) as [uptodate|] eqn:Eu;
     [|inversion H; subst; eapply ES_create; eauto].
   destruct (select_current _ _ _ uptodate (es_now sn)) as [current rq] eqn:Es.
-  match type of H with (if ?b then _ else _) = _ => destruct b end.
+  match type of H with (if ?b then _ else _) = _ => destruct b eqn:Efail end.
   - inversion H; subst. eapply ES_main; eauto.
   - destruct (update_instance _ _ _ _ _ _ _) as [upl|c|c] eqn:Eui; try discriminate.
     inversion H; subst. eapply ES_main; eauto.
@@ -147,7 +148,7 @@ Proof.
   - rewrite Hw in Hin. contradiction.
   - rewrite Hw in Hin. contradiction.
   - rewrite Hw in Hin. contradiction.
-  - destruct Hw as [Hw | [upl [Hui Hw]]].
+  - destruct Hw as [[_ Hw] | [_ [upl [Hui Hw]]]].
     + rewrite Hw, statuses_of_deletes in Hin. contradiction.
     + rewrite Hw, statuses_of_app, statuses_of_deletes in Hin. cbn [app] in Hin.
       apply update_instance_inv in Hui. destruct Hui as [st'' [h [ann' [ws [Hres Hfin]]]]].
